@@ -4,7 +4,7 @@ import numpy as np
 from harness import common as C
 from harness import zoo as Z
 
-ANCHORS = ["T7unseen", "T4", "T7mic", "T5rot", "T7chain"]
+ANCHORS = ["T7unseen", "T4", "T7mic", "T5rot", "T7chain", "T9text"]
 MODELS = ["Mic", "MicCase", "CrossCase"]
 RULE = ("fitted transform-capable models (EOF, ComplexEOF, SparsePCA, POP, their rotators, CPCCA family, their rotators, multi.CCA) x new data with "
         "1..N samples, sample coordinates disjoint from / overlapping / equal to the training ones, one or two sample dimensions, a sample "
